@@ -258,7 +258,7 @@ static std::vector<ArenaArea> all_arena_areas() {
 static bool in_arena(const std::vector<ArenaArea>& as, uint64_t a, uint64_t len) { for (auto& x : as) if (a >= x.start && a + len <= x.start + x.size) return true; return false; }
 
 static void do_footprint_mark(const Op& op) {
-  if (op.a == 0) mi_collect(true);
+  if (op.a == 0) collect_all_heaps(true);
   std::vector<ArenaArea> as = all_arena_areas();
   uint64_t mapped = 0, resident = 0;
   for (auto& r : os_regions()) { if (r.donated) continue; mapped += r.len; resident += os_resident_bytes(r.start, r.len); }
@@ -269,7 +269,7 @@ static void do_footprint_mark(const Op& op) {
 
 static void do_giveback_check(const Op& op) {
   // op.a bit0: do not collect; bit1: skip the arena-commit rule (reset mode / purging off); bit2: skip monotonicity
-  if (!(op.a & 1)) mi_collect(true);
+  if (!(op.a & 1)) collect_all_heaps(true);
   if (!H.live.empty()) { H.ops_noop++; return; }
   for (size_t k = 0; k < H.threads.size(); k++) if ((int)k != T->prog && H.threads[k].started && !H.threads[k].done) { H.ops_noop++; return; }
   for (auto sp : H.subprocs) if (sp) { H.ops_noop++; return; }   // memory abandoned in another sub-process can only be released by a thread of that sub-process
@@ -310,7 +310,7 @@ static void do_arena_fill_check(const Op& op) {
   if (as < 0 || as >= (int)H.arenas.size() || H.arenas[as].id == 0) { H.ops_noop++; return; }
   for (auto& kv : H.live) { Block* b = kv.second; if (b->p >= H.arenas[as].start && b->p < H.arenas[as].start + H.arenas[as].size) { H.ops_noop++; return; } }
   const MArena& ar = H.arenas[as];
-  mi_collect(true);
+  collect_all_heaps(true);
   mi_heap_t* h = mi_heap_new_in_arena(ar.id);
   if (!h) { H.ops_noop++; return; }
   const size_t nblocks = ar.size / (32u << 20);
@@ -322,9 +322,11 @@ static void do_arena_fill_check(const Op& op) {
     if (got.size() != nblocks) sim_violation("arena_leak", "after everything was freed, %zu single-block objects fit into arena %d of %zu blocks (blocks stay reserved or are handed out twice)", got.size(), ar.id, nblocks);
     for (void* p : got) { sched_call_begin(); mi_free(p); }
   } else {
-    size_t sz = ar.size - (2u << 20);
+    size_t sz = ar.size - (8u << 20);   // a multiple of the 4 MiB allocation granularity that leaves room for the segment header
     void* p = mi_heap_malloc(h, sz);
+    if (!p && g_cfg.trace) mi_arenas_print();
     if (!p) sim_violation("arena_leak", "after everything was freed, one object of %zu bytes does not fit into arena %d of %zu bytes", sz, ar.id, ar.size);
+    if (!((uint8_t*)p >= ar.start && (uint8_t*)p + sz <= ar.start + ar.size)) sim_violation("arena_escape", "arena-bound heap returned %p outside arena %d", p, ar.id);
     mi_free(p);
   }
   mi_heap_delete(h);
